@@ -20,15 +20,16 @@ from .vals import EngineError
 from .extract import StaleContract
 from .models import pylists, pyannote_  # noqa: F401  (registers the models)
 from . import heap  # noqa: F401  (tier B layer)
-from .models import numpy_cvx, genexp, csvio, rng, pysets, occmap  # noqa: F401,E402
+from .models import numpy_cvx, genexp, csvio, rng, pysets, occmap, npsort  # noqa: F401,E402
 
 ROOT = os.path.dirname(os.path.dirname(os.path.abspath(__file__)))
-CONTRACT_MODULES = ["numba_utils", "dissimilarity", "continuum", "alignment", "sampler", "cst", "recompute"]
+CONTRACT_MODULES = ["numba_utils", "dissimilarity", "continuum", "alignment", "sampler", "cst", "recompute", "ordinal"]
 VENV_PY = "/venv/bin/python"
 
 
 def load_contracts():
-    for m in CONTRACT_MODULES:
+    extra = [m for m in os.environ.get("VERIF_EXTRA_CONTRACTS", "").split(",") if m]     # development: modules not registered yet
+    for m in CONTRACT_MODULES + extra:
         importlib.import_module("contracts." + m)
     from contracts import properties
     return properties.PROPS
